@@ -298,6 +298,72 @@ def probe_walk(P, rnd):
     corrupt("walker: a discarding verdict logged as keep", wrong_sep)
 
 
+
+def probe_rules_machine(P, rnd):
+    """RuleTrace: the recorded visits of rule::branch are bound to RuleImpl.tla - a context that is not the branch's
+    own, a visit removed, two visits swapped"""
+    cases = L.family_cases("quick", [("mini", 6), ("deep", 6)])
+    obs = L.read_ndjson(L.observe(cases, "tok,rules", "selfrules"))
+    recs, _ = _tlc_recs("RuleTrace.tla", "RuleTrace.cfg", {"OBS": _keep(_tmp_obs("rules0", obs))})
+    noisy = {r["id"] for r in recs if r["t"] in ("DISAGREE", "IMPL", "SPEC")}
+    P.add("rule machine: uncorrupted records accepted", not noisy, "%d records, %d with visits, %d reported" % (len(obs), sum(1 for o in obs if o.get("rtrace")), len(noisy)))
+    pool = [o for o in obs if len(o.get("rtrace", [])) >= 2 and o["id"] not in noisy]
+    rnd.shuffle(pool)
+
+    def run(name, mutate, types, pred=lambda o: True, n=150):
+        sel = [copy.deepcopy(o) for o in pool if pred(o)][:n]
+        for o in sel:
+            mutate(o)
+        rs, _ = _tlc_recs("RuleTrace.tla", "RuleTrace.cfg", {"OBS": _keep(_tmp_obs("rules1", sel))})
+        caught = {r["id"] for r in rs if r["t"] in types}
+        miss = [o["id"] for o in sel if o["id"] not in caught]
+        P.add(name, bool(sel) and not miss, "%d of %d corrupted records rejected (%s)" % (len(sel) - len(miss), len(sel), "/".join(types)))
+
+    def foreign(o):
+        # the last visit gets the context of the first one (or loses it)
+        v, w = o["rtrace"][-1], o["rtrace"][0]
+        v["l"], v["r"] = ([-1, -1], [-1, -1]) if (v["l"], v["r"]) == (w["l"], w["r"]) else (w["l"], w["r"])
+    run("rule machine: a visit with a foreign context", foreign, ("DISAGREE",),
+        lambda o: (o["rtrace"][-1]["l"], o["rtrace"][-1]["r"]) != ([-1, -1], [-1, -1]) or (o["rtrace"][0]["l"], o["rtrace"][0]["r"]) != ([-1, -1], [-1, -1]))
+
+    def drop(o):
+        del o["rtrace"][0]
+    run("rule machine: first visit removed", drop, ("IMPL",))
+
+    def swap(o):
+        o["rtrace"][0], o["rtrace"][1] = o["rtrace"][1], o["rtrace"][0]
+    run("rule machine: first two visits swapped", swap, ("IMPL",))
+
+
+def probe_entries(P, rnd):
+    """EntryCheck / PathAlg: the facts of C14 are derived from raw bytes - a root segment, a relative segment or a depth
+    that does not belong to the entry is rejected"""
+    from . import checks as K
+    scenarios = [h for h in W.glob_scenarios("quick", 1, rnd) if not h.get("rooted")][:40]
+    for i, h in enumerate(scenarios):
+        h["sid"] = i + 1
+        h["skip_trace"] = True
+    W.prepare_glob_scenarios(scenarios)
+    results = W.run_walks(scenarios, "selfc14")
+    recs = [r for r in K.entry_records(scenarios, results) if r["f"]["depth"] >= 1]
+    for i, r in enumerate(recs):
+        r["sid"] = i + 1            # one id per record, so that a rejection names its record
+    base, _ = _tlc_recs("EntryCheck.tla", "EntryCheck.cfg", {"OBS": _keep(_tmp_obs("ent0", recs))})
+    bad0 = {r["sid"] for r in base if r["t"] in ("DISAGREE", "MODEL")}
+    P.add("entries: uncorrupted records accepted", bool(recs) and not bad0, "%d entries, %d reported" % (len(recs), len(bad0)))
+
+    def run(name, mutate):
+        sel = [copy.deepcopy(r) for r in recs if r["sid"] not in bad0][:200]
+        for r in sel:
+            mutate(r["f"])
+        rs, _ = _tlc_recs("EntryCheck.tla", "EntryCheck.cfg", {"OBS": _keep(_tmp_obs("ent1", sel))})
+        caught = {r["sid"] for r in rs if r["t"] == "DISAGREE"}
+        miss = [r["sid"] for r in sel if r["sid"] not in caught]
+        P.add(name, bool(sel) and not miss, "%d of %d corrupted records rejected" % (len(sel) - len(miss), len(sel)))
+    run("entries: depth off by one", lambda f: f.__setitem__("depth", f["depth"] + 1))
+    run("entries: root segment loses its last byte", lambda f: f.__setitem__("root_b", f["root_b"][:-1]))
+    run("entries: relative segment gains a component", lambda f: f.__setitem__("rel_b", f["rel_b"] + [47, 120]))
+
 def probe_coverage(P):
     """vacuity: every action of Walk.tla is taken in the exhaustive model"""
     counts = {}
@@ -341,6 +407,8 @@ def run():
         probe_query(P, rnd)
         probe_lifecycle(P, rnd)
         probe_walk(P, rnd)
+        probe_rules_machine(P, rnd)
+        probe_entries(P, rnd)
         probe_coverage(P)
     finally:
         for p in _kept:
